@@ -140,6 +140,9 @@ var fuzzSeeds = []string{
 	// names with backslashes are ordinary names, different from their slash twins
 	"p src\\evil.sh 1\np ok.txt 1\nP ALLOW ok.txt\nP ALLOW src/*\nP DISALLOW *",
 	"m dist\\pkg 1\nm a\\b 2\np a/b 2\ndp dist/pkg 1\nM MATCH * WITH PRODUCTS FROM dst\nM DISALLOW a\\\\b\nP MODIFY *\nP DISALLOW *",
+	// REQUIRE on an empty or fully consumed queue
+	"M REQUIRE foo\nP REQUIRE foo\nP ALLOW *",
+	"m foo 1\ndp foo 1\nM MATCH * WITH PRODUCTS FROM dst\nM REQUIRE foo\nM DISALLOW *",
 	// a MATCH rule referring to the item itself; several items' worth of rule kinds in one list
 	"m x 1\np x 1\np y 3\nM MATCH x WITH PRODUCTS FROM item\nM DISALLOW *\nP MATCH x WITH MATERIALS FROM item\nP CREATE y\nP DISALLOW *",
 }
